@@ -543,10 +543,71 @@ def loop_coverage(body, call):
         return False, 'an iteration can skip the call (continue / filter inside the loop body)', it
     # (b) a successful exit that does not go through the iterator's None edge (break / early Ok return)
     oks = strict_ok_exit_blocks(body) | {b for b, k, _ in body.return_sites() if k in ('value', 'tail')}
-    r2 = body.reachable(st, avoid_blocks={nx.bb})
+    r2 = body.reachable(st, avoid_blocks={nx.bb} | propagated_error_sites(body))
     if oks & r2:
         return False, 'the loop can be left early with a success result (break / early return)', it
     return True, 'every iteration reaches the call; the loop ends only by exhaustion or error', it
+
+
+def propagated_error_sites(body):
+    """Blocks of spliced helpers (inline.py) in which the helper leaves with an error (`?` residual or an explicit Err),
+    for helpers whose result the caller hands to `?` at the splice site.  In the helper's own body such a block leads to
+    an error return; after splicing, all returns of the helper join at the caller's continuation, and only the caller's
+    `?` separates them again — a CFG path "error in the helper, then the caller's success branch" is infeasible.  A
+    helper whose result is not handed to `?` (the caller may swallow the error) contributes nothing."""
+    out = set()
+    checked = {}
+    for b in sorted(body.reach):
+        blk = body.blocks[b]
+        if 'inl' not in blk or blk.get('cleanup'):
+            continue
+        cont = blk.get('inl_cont')
+        if cont not in checked:
+            checked[cont] = _continues_with_try(body, cont)
+        if not checked[cont]:
+            continue
+        t = blk.get('term') or {}
+        if t.get('t') == 'call' and (t.get('fn') or '') == 'std::ops::FromResidual::from_residual':
+            out.add(b)
+            continue
+        for s in blk['s']:
+            rv = s.get('rv')
+            if rv and rv['r'] == 'agg' and rv.get('kind') == 'adt' and rv['adt'] in ('std::result::Result', 'core::result::Result') and rv.get('variant') == 'Err':
+                out.add(b)
+    return out
+
+
+def _continues_with_try(body, cont):
+    """the first call reached from the continuation of a spliced helper (through gotos, the Poll::Ready switch of an
+    await, drops and storage statements) is Try::branch: the caller applies `?` to the helper's result"""
+    if cont is None:
+        return False
+    seen, todo = set(), [cont]
+    verdicts = []
+    while todo:
+        x = todo.pop()
+        if x in seen or x not in body.reach:
+            continue
+        seen.add(x)
+        t = body.term(x)
+        if body.blocks[x].get('cleanup') or t.get('t') in ('unreachable', 'resume'):
+            continue
+        if t.get('t') == 'call':
+            fn = t.get('fn') or ''
+            if t.get('x', '').startswith('m:') or fn.endswith('::with_error_context') or fn.endswith('::map_err') or fn.endswith('::with_error'):
+                todo.extend(body.succ(x))   # error decoration keeps the Result
+                continue
+            verdicts.append(fn == 'std::ops::Try::branch')
+            continue
+        if t.get('t') in ('return', 'yield'):
+            if t.get('t') == 'yield':
+                continue   # the Pending arm of an await
+            verdicts.append(False)
+            continue
+        todo.extend(body.succ(x))
+        if len(seen) > 40:
+            return False
+    return bool(verdicts) and all(verdicts)
 
 
 # ------------------------------------------------------------------ comparison normal forms (A10 on branch conditions)
